@@ -16,7 +16,7 @@ Variable src : @source json.
 Variable vp : list (vertex P).
 Variable tr : @tracecfg json.
 
-Hypothesis ev_ok : forall p m, wf m ->
+Hypothesis ev_ok : forall p m, In (VPred p) vp -> wf m ->
   (fst (ev p m tr) = fst (sev p (abs m)) /\
    map abs_ev (snd (ev p m tr)) = proj (tracing tr) (snd (sev p (abs m)))) \/
   (exists e, fst (ev p m tr) = Exn e /\ budget_exn e = true).
@@ -113,7 +113,7 @@ Theorem find_matches_nopred :
     List.length (deval Empty_set sev0 vp (abs (root_match src))) < fuel ->
     exact_answer Empty_set sev0 src vp (drain Empty_set ev0 src vp tr fuel B init_state).
 Proof.
-  assert (Hok : forall p m, wf m ->
+  assert (Hok : forall p m, In (VPred p) vp -> wf m ->
     (fst (ev0 p m tr) = fst (sev0 p (abs m)) /\
      map abs_ev (snd (ev0 p m tr)) = proj (tracing tr) (snd (sev0 p (abs m)))) \/
     (exists e, fst (ev0 p m tr) = Exn e /\ budget_exn e = true)) by (intros []).
@@ -127,3 +127,71 @@ Proof.
 Qed.
 
 End NoPred.
+
+(* ------------------------------------------------------------------ filter-free paths over any predicate language *)
+Section PredFree.
+Variable P : Type.
+Variable ev : P -> jtm -> @tracecfg json -> res json * list jevent.
+Variable src : @source json.
+Variable vp : list (vertex P).
+Variable tr : @tracecfg json.
+Hypothesis Hsrc : src_wf src.
+Hypothesis Hvalid : valid_path P vp = true.
+Hypothesis Hfree : forall p, ~ In (VPred p) vp.
+
+Definition sev_const (p : P) (c : jctx) : res json * list sevent := (Ok JNull, []).
+
+Lemma step_raise_nobudget_free z e z2 ev2 :
+  step jshape P ev src vp tr z = SRaise e z2 ev2 -> budget_exn e = false.
+Proof.
+  unfold step. destruct (pc z).
+  - discriminate.
+  - destruct (cur z) as [m|]; [|intros H; injection H as <- _ _; reflexivity].
+    destruct (Nat.eqb (tvx m) (List.length vp)); discriminate.
+  - destruct (cur z) as [m|]; [|intros H; injection H as <- _ _; reflexivity].
+    destruct (nth_error vp (tvi m)) as [v|] eqn:Hn; [|intros H; injection H as <- _ _; reflexivity].
+    destruct (vmatch jshape P ev v m (S (tvi m)) tr (st z) (nid z)) as [[[r s'] n'] evs] eqn:Hv.
+    destruct r as [[c|]|e0]; intros H; try discriminate. injection H as <- _ _.
+    destruct v as [k | i0 | a b0 c0 | l | | | dot | | | p];
+      [| | | | | | | | | exfalso; apply (Hfree p); eapply nth_error_In; eauto]; simpl in Hv.
+    all: unfold multi, pop_next, vrec in Hv.
+    all: repeat match type of Hv with
+                | context [match ?x with _ => _ end] => destruct x eqn:?
+                end; try discriminate; injection Hv as <- _ _ _.
+    all: try reflexivity.
+    all: match goal with
+         | H : items_for _ _ _ _ = Exn _ |- _ =>
+             unfold items_for in H;
+             repeat match type of H with context [match ?x with _ => _ end] => destruct x eqn:? end;
+             try discriminate; injection H as <-
+         end.
+    all: match goal with
+         | H : enumerate_slice _ _ _ _ = Exn _ |- _ =>
+             unfold enumerate_slice in H;
+             repeat match type of H with context [match ?x with _ => _ end] => destruct x eqn:? end;
+             try discriminate; injection H as <-; reflexivity
+         end.
+  - destruct (cur z) as [m|]; [discriminate | intros H; injection H as <- _ _; reflexivity].
+  - intros H; injection H as <- _ _; reflexivity.
+Qed.
+
+Hypothesis ev_quiet : forall p m, ev_results (snd (ev p m tr)) = [].
+
+Theorem find_matches_predfree :
+  exists k : nat, forall B fuel, k < Pos.to_nat B ->
+    List.length (deval P sev_const vp (abs (root_match src))) < fuel ->
+    exact_answer P sev_const src vp (drain P ev src vp tr fuel B init_state).
+Proof.
+  assert (Hok : forall p m, In (VPred p) vp -> wf m ->
+    (fst (ev p m tr) = fst (sev_const p (abs m)) /\
+     map abs_ev (snd (ev p m tr)) = proj (tracing tr) (snd (sev_const p (abs m)))) \/
+    (exists e, fst (ev p m tr) = Exn e /\ budget_exn e = true)) by (intros p m Hin; exfalso; eapply Hfree; eauto).
+  assert (Hpure : pure_sev P sev_const) by (intros p c; split; [exists JNull; reflexivity | reflexivity]).
+  destruct (find_matches_deval P ev sev_const src vp tr Hok ev_quiet Hsrc Hpure Hvalid) as [k Hk].
+  exists k. intros B fuel HB Hfuel.
+  destruct (Hk B fuel HB Hfuel) as [H | H]; [exact H|].
+  exfalso. destruct H as (ms & e & pre & suf & _ & _ & _ & _ & Hbe & (z1 & z2 & ev2 & Hs) & _).
+  rewrite (step_raise_nobudget_free _ _ _ _ Hs) in Hbe. discriminate.
+Qed.
+
+End PredFree.
